@@ -16,7 +16,7 @@ Inductive obs :=
 | OOpen.           (* still open when the scenario was torn down *)
 
 Inductive case :=
-| CScen (wait : N) (started : list (addr * server))   (* in start order, with the configured listen addresses *)
+| CScen (wait : N) (hist : list hop)   (* starts (with the configured listen addresses) and CloseProxy calls, in order *)
         (impl_T : option N)                  (* duration of proxy.Shutdown; None = not back within the hang cap *)
         (probe_at : N)
         (accepted_begin accepted_return : list bool)  (* per server: a connect after begin / after return succeeded *)
@@ -50,9 +50,10 @@ Definition ret_matches (lo hi : N) (m : dur) (t : option N) : bool :=
 
 (* ---- the property on the implementation's own observables (independent of the model's
         step programs): nobody is accepted, every item that needs at most wait - 50 ms got its
-        complete answer before Shutdown returned (+50 ms for the client to see it), and
-        Shutdown returned within wait + 2 s ---- *)
-Definition spec_margin : N := 50.
+        complete answer before Shutdown returned (+margin for the client to see it), and
+        Shutdown returned within wait + 2 s.  Servers closed by CloseProxy BEFORE shutdown began
+        are outside clause 2 (their work was not in flight when shutdown began) ---- *)
+Definition spec_margin : N := 150.
 Definition spec_slack : N := 2000.
 
 Definition item_ok (wait : N) (impl_T : option N) (d : dur) (o : obs) : bool :=
@@ -67,31 +68,45 @@ Definition item_ok (wait : N) (impl_T : option N) (d : dur) (o : obs) : bool :=
   | Inf => true
   end.
 
-Definition spec_impl (wait : N) (srvs : list server) (impl_T : option N)
+(* per start, in order: was CloseProxy called for its address later in the history? *)
+Fixpoint closed_earlier (h : list hop) : list bool :=
+  match h with
+  | [] => []
+  | HStart a _ :: r =>
+      existsb (fun o => match o with HClose a' => addr_eqb a' a | _ => false end) r :: closed_earlier r
+  | _ :: r => closed_earlier r
+  end.
+
+Definition spec_impl (wait : N) (hist : list hop) (impl_T : option N)
            (acc1 acc2 : list bool) (impl : list (list (list obs))) : bool :=
   forallb negb acc1 && forallb negb acc2
-  && all2 (fun s os => all2 (fun l o => all2 (item_ok wait impl_T) (litems l ++ map (fun _ => Inf) (lstuck l)) o) (leaves s) os) srvs impl
+  && all2 (fun (p : server * bool) os => if snd p then true else
+             all2 (fun l o => all2 (item_ok wait impl_T) (litems l ++ map (fun _ => Inf) (lstuck l)) o) (leaves (fst p)) os)
+          (combine (history_servers hist) (closed_earlier hist)) impl
   && match impl_T with Some T => T <=? wait + spec_slack | None => false end.
 
 (* no finding region: F-C18-1 (gRPC Shutdown ignored its deadline) was repaired by fix 72215e8;
    by C18_bounded the model satisfies the bound for every input *)
 Definition check_case (c : case) : N :=
   match c with
-  | CScen wait started impl_T probe_at acc1 acc2 impl lo hi =>
-      let srvs := map snd started in
-      let rs := run_started grpc_prog key_configured wait started in
+  | CScen wait hist impl_T probe_at acc1 acc2 impl lo hi =>
+      let srvs := history_servers hist in
+      let rs := run_history grpc_prog key_configured wait hist in
       let same :=
-        ret_matches lo hi (started_ret rs) impl_T
-        && all2 (fun r a => Bool.eqb (started_accepts r probe_at) a) rs acc1
-        && all2 (fun r a => Bool.eqb (started_accepts r probe_at) a) rs acc2
+        ret_matches lo hi (history_ret rs) impl_T
+        && all2 (fun r a => Bool.eqb (sfate_accepts r probe_at) a) rs acc1
+        && all2 (fun r a => Bool.eqb (sfate_accepts r probe_at) a) rs acc2
         && all2 (fun p os =>
                    match fst p with
-                   | Some r => all2 (fun lr o => all2 (fate_matches lo hi) (r_fates lr ++ r_stuck lr) o) (s_leaves r) os
-                   | None => (* not reached by Shutdown: nothing closed, nothing cut *)
+                   | SReached r => all2 (fun lr o => all2 (fate_matches lo hi) (r_fates lr ++ r_stuck lr) o) (s_leaves r) os
+                   | SLost => (* not reached by Shutdown: nothing closed, nothing cut *)
                        all2 (fun l o => all2 (fate_matches lo hi) (map untouched (litems l) ++ map Cut (lstuck l)) o)
                             (leaves (snd p)) os
+                   | SClosed => (* every connection closed by CloseProxy before shutdown began (time 0 here) *)
+                       all2 (fun l o => all2 (fate_matches lo hi) (map (fun _ => Cut (Fin 0)) (litems l ++ lstuck l)) o)
+                            (leaves (snd p)) os
                    end) (combine rs srvs) impl in
-      let spec := spec_impl wait srvs impl_T acc1 acc2 impl in
+      let spec := spec_impl wait hist impl_T acc1 acc2 impl in
       let region : option N := None in
       let nontriv := existsb (fun s => existsb (fun l => negb (match litems l ++ lstuck l with [] => true | _ => false end)) (leaves s)) srvs in
       verdict same spec region nontriv
